@@ -44,12 +44,6 @@ TInit == /\ tid = 1 /\ l = 1 /\ nbad = 0
 
 Report(kind, clause) == PrintT(ToJson([ev |-> kind, tid |-> tid, l |-> l, clause |-> clause]))
 
-(* deterministic completion of the model from a state: always the smallest unmatched root *)
-RECURSIVE Finish(_)
-Finish(mm) ==
-  IF mm.pc = "done" THEN mm
-  ELSE IF Kind(mm) = "Pick" THEN Finish(DoPick(mm, MinOf(mm.un)))
-  ELSE Finish(StepDet(mm))
 
 SameLen(mt) == Len(mt) = Len(m.g)
 
